@@ -1,6 +1,7 @@
 package doubles
 
 import (
+	"asherahverif/shim/vsched"
 	"context"
 	"errors"
 	"fmt"
@@ -9,12 +10,12 @@ import (
 	"strconv"
 	"strings"
 
+	ddbv2 "github.com/aws/aws-sdk-go-v2/service/dynamodb"
+	typesv2 "github.com/aws/aws-sdk-go-v2/service/dynamodb/types"
 	awsv1 "github.com/aws/aws-sdk-go/aws"
 	"github.com/aws/aws-sdk-go/aws/awserr"
 	reqv1 "github.com/aws/aws-sdk-go/aws/request"
 	ddbv1 "github.com/aws/aws-sdk-go/service/dynamodb"
-	ddbv2 "github.com/aws/aws-sdk-go-v2/service/dynamodb"
-	typesv2 "github.com/aws/aws-sdk-go-v2/service/dynamodb/types"
 )
 
 // AV is an SDK-neutral DynamoDB attribute value.
@@ -43,11 +44,22 @@ type FakeDynamo struct {
 	failed    map[string]int
 	// Unsupported collects expressions outside the fake's grammar (reported as a machinery gap, not a violation).
 	Unsupported []string
+	obj         vsched.Obj
 }
 
 type DynTable struct {
 	Items []map[string]*AV // current
 	Prev  []map[string]*AV // before the last write (what a lagging replica still shows)
+}
+
+// enter is the transport: a request reaches the endpoint at a scheduling point of the explorer (the request object is
+// read only afterwards, as a real client serialises it when it is sent), and the fake itself is not thread-safe.
+func (f *FakeDynamo) enter(kind string) func() {
+	unlock := vsched.LockDoubles()
+	if vsched.Active() {
+		vsched.Point(&vsched.Op{Kind: kind, Obj: &f.obj, Ext: true})
+	}
+	return unlock
 }
 
 func NewFakeDynamo(region string, tables ...string) *FakeDynamo {
@@ -414,6 +426,7 @@ func errV1(e *DynError) error {
 }
 
 func (d DynamoV1) GetItemWithContext(_ awsv1.Context, in *ddbv1.GetItemInput, _ ...reqv1.Option) (*ddbv1.GetItemOutput, error) {
+	defer d.F.enter("dynamo.Get")()
 	item, e := d.F.GetItem(in.TableName, mapFromV1(in.Key), namesV1(in.ExpressionAttributeNames), in.ProjectionExpression, in.ConsistentRead != nil && *in.ConsistentRead)
 	if e != nil {
 		return nil, errV1(e)
@@ -422,6 +435,7 @@ func (d DynamoV1) GetItemWithContext(_ awsv1.Context, in *ddbv1.GetItemInput, _ 
 }
 
 func (d DynamoV1) PutItemWithContext(_ awsv1.Context, in *ddbv1.PutItemInput, _ ...reqv1.Option) (*ddbv1.PutItemOutput, error) {
+	defer d.F.enter("dynamo.Put")()
 	if e := d.F.PutItem(in.TableName, mapFromV1(in.Item), in.ConditionExpression, namesV1(in.ExpressionAttributeNames)); e != nil {
 		return nil, errV1(e)
 	}
@@ -429,6 +443,7 @@ func (d DynamoV1) PutItemWithContext(_ awsv1.Context, in *ddbv1.PutItemInput, _ 
 }
 
 func (d DynamoV1) QueryWithContext(_ awsv1.Context, in *ddbv1.QueryInput, _ ...reqv1.Option) (*ddbv1.QueryOutput, error) {
+	defer d.F.enter("dynamo.Query")()
 	items, e := d.F.Query(in.TableName, in.KeyConditionExpression, namesV1(in.ExpressionAttributeNames), mapFromV1(in.ExpressionAttributeValues),
 		in.ProjectionExpression, in.Limit, in.ScanIndexForward, in.ConsistentRead != nil && *in.ConsistentRead)
 	if e != nil {
@@ -543,6 +558,7 @@ func errV2(e *DynError) error {
 }
 
 func (d DynamoV2) GetItem(_ context.Context, in *ddbv2.GetItemInput, _ ...func(*ddbv2.Options)) (*ddbv2.GetItemOutput, error) {
+	defer d.F.enter("dynamo.Get")()
 	item, e := d.F.GetItem(in.TableName, mapFromV2(in.Key), in.ExpressionAttributeNames, in.ProjectionExpression, in.ConsistentRead != nil && *in.ConsistentRead)
 	if e != nil {
 		return nil, errV2(e)
@@ -551,6 +567,7 @@ func (d DynamoV2) GetItem(_ context.Context, in *ddbv2.GetItemInput, _ ...func(*
 }
 
 func (d DynamoV2) PutItem(_ context.Context, in *ddbv2.PutItemInput, _ ...func(*ddbv2.Options)) (*ddbv2.PutItemOutput, error) {
+	defer d.F.enter("dynamo.Put")()
 	if e := d.F.PutItem(in.TableName, mapFromV2(in.Item), in.ConditionExpression, in.ExpressionAttributeNames); e != nil {
 		return nil, errV2(e)
 	}
@@ -558,6 +575,7 @@ func (d DynamoV2) PutItem(_ context.Context, in *ddbv2.PutItemInput, _ ...func(*
 }
 
 func (d DynamoV2) Query(_ context.Context, in *ddbv2.QueryInput, _ ...func(*ddbv2.Options)) (*ddbv2.QueryOutput, error) {
+	defer d.F.enter("dynamo.Query")()
 	var limit *int64
 	if in.Limit != nil {
 		l := int64(*in.Limit)
